@@ -1184,9 +1184,12 @@ func verifyGitObjectAndAttestations(ctx context.Context, policy *State, target s
 			// explicitly not looking at the attestation
 			// that applies to the _push_
 			// thus, we also set threshold to 1
-			verifier.threshold = 1
+			// (on a copy: the verifier is cached in the policy state and is
+			// used again, with its own threshold, for later entries)
+			tagVerifier := *verifier
+			tagVerifier.threshold = 1
 
-			_, err := verifier.Verify(ctx, options.tagObjectID, nil)
+			_, err := tagVerifier.Verify(ctx, options.tagObjectID, nil)
 			if err == nil {
 				// Signature verification succeeded
 				tagObjVerified = true
